@@ -214,7 +214,12 @@ def run(ctx, rep):
                 okd = okd and any(c.endswith("Aead::decrypt") or re.search(r"Aead(>)?::decrypt$", c) for c in sl["calls"])
             elif d[0] == "stmt":
                 rv = d[4]
-                if not (rv[0] == "agg" and rv[1][0] == "adt" and rv[1][2] == "Err"):
+                if rv[0] == "agg" and rv[1][0] == "adt" and rv[1][2] == "Ok" and len(rv[2]) == 1 and op_place(rv[2][0]) is not None:
+                    # `match cipher.decrypt(..) { Ok(p) => Ok(p), Err(e) => Err(..) }`: the payload's only origin is the AEAD call
+                    orig = flow.origins(D, op_place(rv[2][0]))
+                    if not orig or not all(o.kind == "call" and (o.data[1].endswith("Aead::decrypt") or re.search(r"Aead(>)?::decrypt$", o.data[1])) for o in orig):
+                        okd = False
+                elif not (rv[0] == "agg" and rv[1][0] == "adt" and rv[1][2] == "Err"):
                     okd = False
         rep.check("C04.d", "only-aead-output", okd, where=D.loc(), what="decrypt_data returns Ok only with the output of the AEAD's decrypt (authentication happens inside it)")
     DB = "rustic_core::backend::decrypt::DecryptBackend::<C>::"
